@@ -258,7 +258,7 @@ def h_history(hx, depth):
         else:
             payload = None
             if m.startswith("data-rrs"):
-                ri = hx.pick("radio_%d" % n, [0, 1])
+                ri = hx.pick("radio_%d" % n, [0, 1, 2])       # radio 2 has the radio id of radio 0 in another subnet
                 op = RRSTypes.RadioRegistrationRequest if m.endswith("request") else RRSTypes.RadioGoingOffline
                 payload = RadioRegistrationService(opcode=op, radio_ip=RADIOS[ri])
                 want_reg[RADIOS[ri].as_ip()] = RRSRadioState.Online if m.endswith("request") else RRSRadioState.Offline
